@@ -51,7 +51,7 @@ _REPLAY_MU = Ns._REPLAY_NESTED.replace('get_mev_for_nested, lognested, nested', 
 contract(M + 'get_mev_for_nested_mu', ['C05', 'C06'], nla_uf=True, replay=_REPLAY_MU,
          types={'util': 'dict[int, Expression]', 'availability': 'dict[int, Expression] | None', 'nests': 'NestsForNestedLogit',
                 'mu': 'Expression'},
-         requires=_REQ, modifies=[], may_raise=['BiogemeError'],
+         requires=_REQ, modifies=[], raises={'BiogemeError': Ns._NOT_OK},
          ensures={'domain_alone': Ns._DOM_ALONE.replace('log_gi', 'result'),
                   'domain_nests': Ns._DOM_K.replace('log_gi', 'result').replace('_k', f'len({T})'),
                   'nest_terms': _VAL_K.replace('log_gi', 'result').replace('_k', f'len({T})'),
